@@ -51,6 +51,8 @@ def transport_param_is_received(F, fn, idx, depth=0):
 
 
 def check(R, F):
+    import rules.c05 as _c05
+    _c05._FACTS[0] = F
     from rules import e5, writer_inv
     _S = e5.make_summary(F)
     writer_inv.check(R, F, _S)
